@@ -68,13 +68,18 @@ impl LogWriter for SyslogWriter {
         if record.level() > self.max_log_level {
             return Ok(());
         }
-        let mut conn_buf_guard = self
-            .m_conn_buf
-            .lock()
-            .map_err(|_| crate::util::io_err("SyslogWriter is poisoned"))?;
-        let cb = &mut *conn_buf_guard;
-        cb.buf.clear();
-        let mut buffer = Cursor::new(&mut cb.buf);
+        // format without holding the lock: formatting can itself produce log calls
+        // (e.g. in Display implementations), which would otherwise deadlock;
+        // so take the buffer out of the guarded struct and give it back afterwards
+        let mut buf = std::mem::take(
+            &mut self
+                .m_conn_buf
+                .lock()
+                .map_err(|_| crate::util::io_err("SyslogWriter is poisoned"))?
+                .buf,
+        );
+        buf.clear();
+        let mut buffer = Cursor::new(&mut buf);
 
         self.line_writer
             .write_syslog_entry(&mut buffer, now, record)?;
@@ -82,12 +87,19 @@ impl LogWriter for SyslogWriter {
         #[cfg(test)]
         {
             let mut valbuf = self.validation_buffer.lock().unwrap();
-            valbuf.write_all(&cb.buf)?;
+            valbuf.write_all(&buf)?;
             valbuf.write_all(b"\n")?;
         }
 
+        let mut conn_buf_guard = self
+            .m_conn_buf
+            .lock()
+            .map_err(|_| crate::util::io_err("SyslogWriter is poisoned"))?;
+        let cb = &mut *conn_buf_guard;
         // we _have_ to buffer above because each write here generates a syslog entry
-        cb.conn.write_all(&cb.buf)
+        let result = cb.conn.write_all(&buf);
+        cb.buf = buf;
+        result
     }
 
     fn flush(&self) -> IoResult<()> {
